@@ -309,6 +309,12 @@ func (ce *corrEngine) run(sc CScenario, slot int) {
 		select {
 		case <-p.Entered():
 		case <-time.After(e.W):
+			if g.rcvErrs(cl) != rcvErr0 {
+				R.Count("disturbed_by_stream_reset", 1)
+				ctx.end(context.Canceled)
+				ce.teardown(plans)
+				return
+			}
 			R.Inconc(fmt.Sprintf("request of call %d never reached server %d (foreign: delivery); parked: %v", token, i, h.LibSummary(h.Dump(), 0)))
 			ctx.end(context.Canceled)
 			g.discard(sc.N, cl)
